@@ -250,7 +250,9 @@ impl Seg {
 
 /// one process lifetime
 pub fn seg_main(args: &[String]) {
-    std::panic::set_hook(Box::new(|_| {}));
+    if std::env::var("WH_PANIC").is_err() {
+        std::panic::set_hook(Box::new(|_| {}));
+    }
     let data_dir = PathBuf::from(&args[0]);
     if args[2] == "mmap" {
         walrus_rust::disable_fd_backend();
@@ -294,7 +296,7 @@ fn spawn(exe: &std::path::Path, dir: &PathBuf, mode: &str, backend: &str, sched:
         .env("WALRUS_QUIET", "1")
         .stdin(Stdio::piped())
         .stdout(Stdio::piped())
-        .stderr(Stdio::null())
+        .stderr(if std::env::var("WH_PANIC").is_ok() { Stdio::inherit() } else { Stdio::null() })
         .spawn()
         .expect("spawn seg");
     let mut tx = child.stdin.take().unwrap();
